@@ -33,7 +33,7 @@ def handle (line : String) : String :=
     match Wire.case ct, Wire.obsOf ot with
     | some c, some o =>
       let f : Option (Case → List OpObs × Bytes → Bool) := match id with
-        | "C02" => some Spec.C02 | "C03" => some Spec.C03 | "C04" => some Spec.C04
+        | "C02" => some Spec.C02 | "C03" => some Spec.C03 | "C04" => some Spec.C04 | "C06" => some Spec.C06
         | _ => none
       match f with
       | some f => if f c o then "1" else "0"
